@@ -41,6 +41,29 @@
 #define LF_ASAN 1
 #endif
 
+/* ---- no dependence on other processes or on real time (link-time interposition, --wrap):
+ * libcoap sets SO_REUSEADDR on its UDP sockets; on Linux two UDP sockets that both have it may be
+ * bound to the SAME port, also by the kernel's port selection for port 0 - a server endpoint of
+ * another check process running in parallel could share our port and receive our requests (its
+ * answers then reach our client: bodies of another table, 4.00, 4.08 ...).  Without the option
+ * every port the kernel hands out is exclusive.
+ * The library clock is frozen: no retransmission, session or block-transfer timer can fire however
+ * long the process is descheduled. */
+#include <sys/socket.h>
+int __real_setsockopt(int fd, int level, int optname, const void *optval, socklen_t optlen);
+int __wrap_setsockopt(int fd, int level, int optname, const void *optval, socklen_t optlen) {
+  if (level == SOL_SOCKET && (optname == SO_REUSEADDR
+#ifdef SO_REUSEPORT
+                              || optname == SO_REUSEPORT
+#endif
+                             ))
+    return 0;
+  return __real_setsockopt(fd, level, optname, optval, optlen);
+}
+void __wrap_coap_ticks(coap_tick_t *t) {
+  if (t) *t = (coap_tick_t)1000 * COAP_TICKS_PER_SECOND;
+}
+
 #define GUARD 32
 #define MAXRES 64
 
@@ -366,6 +389,7 @@ static uint16_t g_tok = 1;
 static uint8_t *g_q[MAXQ];
 static size_t g_qn[MAXQ];
 static int g_nq;
+static int g_skip_q;     /* send the next request without the Uri-Query options */
 
 static ssize_t exchange(int fd, const uint8_t *q, size_t qn, int has_q, int with_block,
                         unsigned num, unsigned szx, uint8_t *resp, size_t cap) {
@@ -380,16 +404,16 @@ static ssize_t exchange(int fd, const uint8_t *q, size_t qn, int has_q, int with
   n += put_opt(req + n, 11, (const uint8_t *)".well-known", 11);
   n += put_opt(req + n, 0, (const uint8_t *)"core", 4);
   (void)q; (void)qn;
-  for (int k = 0; k < g_nq; k++) n += put_opt(req + n, k ? 0 : 4, g_q[k], g_qn[k]);
+  for (int k = 0; k < (g_skip_q ? 0 : g_nq); k++) n += put_opt(req + n, k ? 0 : 4, g_q[k], g_qn[k]);
   if (with_block >= 0) {
     uint8_t bv[3];
     unsigned long v = ((unsigned long)num << 4) | szx;
     size_t bl = v == 0 ? 0 : v < 256 ? 1 : v < 65536 ? 2 : 3;
     for (size_t i = 0; i < bl; i++) bv[i] = (uint8_t)(v >> (8 * (bl - 1 - i)));
-    n += put_opt(req + n, has_q ? 8 : 12, bv, bl);
+    n += put_opt(req + n, (has_q && !g_skip_q) ? 8 : 12, bv, bl);
   }
   if (send(fd, req, n, 0) != (ssize_t)n) return -1;
-  for (int tries = 0; tries < 50; tries++) {
+  for (int tries = 0; tries < 3000; tries++) {     /* waits for the answer (60 s), not for a time budget */
     coap_io_process(ctx, COAP_IO_NO_WAIT);
     pf.fd = fd; pf.events = POLLIN; pf.revents = 0;
     if (poll(&pf, 1, tries ? 20 : 0) > 0) {
@@ -506,7 +530,7 @@ static int client_fetch(coap_context_t *cctx, coap_session_t *sess, int szx) {
   }
   cl_len = 0; cl_done = 0; cl_code = 0;
   if (coap_send(sess, pdu) == COAP_INVALID_MID) return -1;
-  for (int it = 0; it < 20000 && !cl_done; it++) {
+  for (int it = 0; it < 400000 && !cl_done; it++) {
     coap_io_process(ctx, COAP_IO_NO_WAIT);
     coap_io_process(cctx, it % 8 == 7 ? 2 : COAP_IO_NO_WAIT);
   }
@@ -579,6 +603,16 @@ static void run_get(int i) {
     coap_session_release(sess);
     coap_free_context(cctx);
     goto out;
+  }
+  if (has_q) {
+    /* an unfinished block-wise GET of the UNFILTERED listing on the same session first (first
+     * 16-byte block only, answer discarded): the filtered transfers that follow must not be
+     * served from that transfer's state */
+    uint8_t tmp[2048];
+    g_skip_q = 1;
+    g_tok++;
+    (void)exchange(fd, q, qn, has_q, 1, 0, 0, tmp, sizeof(tmp));
+    g_skip_q = 0;
   }
   code = fetch(fd, q, qn, has_q, -1, &body, &bn, bad, sizeof(bad));
   if (code != 205) {
